@@ -1,0 +1,41 @@
+// Copyright 2026 foyer Project Authors
+//
+// Licensed under the Apache License, Version 2.0 (the "License");
+// you may not use this file except in compliance with the License.
+// You may obtain a copy of the License at
+//
+//     http://www.apache.org/licenses/LICENSE-2.0
+//
+// Unless required by applicable law or agreed to in writing, software
+// distributed under the License is distributed on an "AS IS" BASIS,
+// WITHOUT WARRANTIES OR CONDITIONS OF ANY KIND, either express or implied.
+// See the License for the specific language governing permissions and
+// limitations under the License.
+
+//! Verification hooks (feature `verif`, add-only).
+//!
+//! Re-exports crate-internal types so that an external harness can (a) implement [`IoEngine`](crate::IoEngine)
+//! (whose method signatures mention otherwise unexported buffer / partition types) and (b) drive the pure cores of
+//! the block engine (buffer / splitter / scanner / serializers / tombstone log / indexer) directly.
+//!
+//! Nothing here changes behaviour; with the feature off this module does not exist.
+
+pub use crate::{
+    engine::block::{
+        buffer::{
+            Batch, BlobEntryIndex, BlobIndex, BlobIndexReader, BlobPart, Block as BatchBlock, Buffer, BufferEntryInfo,
+            SplitCtx, Splitter,
+        },
+        indexer::{EntryAddress, HashedEntryAddress, Index, Indexer},
+        scanner::{BlockScanner, EntryInfo},
+        serde::{EntryHeader, Sequence},
+        tombstone::{Tombstone, TombstoneLog},
+    },
+    io::{
+        PAGE,
+        bytes::{IoB, IoBuf, IoBufMut, IoSlice, IoSliceMut, Raw},
+        device::{Partition, PartitionId},
+        engine::IoEngineBuildContext,
+    },
+    serde::{Checksummer, EntryDeserializer, EntrySerializer, KvInfo},
+};
